@@ -133,7 +133,7 @@ theorem interpScalar_faithful (ext : Ext) (dt : DataType) (x : SVal) (lv : LVal)
     (h : interpScalar ext dt x = .ok lv) (hl : documentedLossyDT dt x = false) : Faithful ext dt x lv := by
   cases hk : kindOf dt with
   | some k =>
-    rw [interpScalar_kind hk] at h
+    rw [interpScalar_kind hk, normErr_ok_iff] at h
     obtain ⟨w, hc, hp⟩ := bind_ok' _ _ _ h
     simp only [pure, Except.pure, Except.ok.injEq] at hp
     subst hp
@@ -163,7 +163,7 @@ theorem interpScalar_faithful (ext : Ext) (dt : DataType) (x : SVal) (lv : LVal)
       all_goals exact .codec hk (by simp only [parseTemporal]; exact hp) hr
   | none =>
     cases dt <;> simp only [kindOf] at hk <;> try (cases hk; done)
-    all_goals simp only [interpScalar] at h
+    all_goals simp only [interpScalar_eq_old, normErr_ok_iff, interpScalarOld] at h
     case utf8 | largeUtf8 | utf8View =>
       split at h
       · cases h; exact .text (by simp) (by assumption)
